@@ -57,7 +57,9 @@ DataAbortSD(x, mva, iswrite, dtype, level, domain) ==
               ((~x.s.cfg.lpae) /\ dtype = "PERMISSION")
       str  == (IF iswrite THEN 2048 ELSE 0) + ((fs \div 16) * 1024) + (fs % 16) + (IF domv THEN domain * 16 ELSE 0)
       dfsr == InsertW(x.s.sys.DFSR, 13, 0, <<0, str>>)
-  IN [x EXCEPT !.s.sys.DFSR = dfsr, !.s.sys.DFAR = mva,
+  IN IF x.s.cfg.lpae THEN NotImpl(x, "tlb_lookup_came_from_cache_maintenance")   \* the emulator's fault reporting with LPAE reaches a mock hook
+     ELSE
+     [x EXCEPT !.s.sys.DFSR = dfsr, !.s.sys.DFAR = mva,
                !.dcD = IF domv THEN @ ELSE WOr(@, <<0, 240>>),
                !.ab = [t |-> "dabort", alignment |-> dtype = "ALIGNMENT", secondstage |-> FALSE]]
 =============================================================================
